@@ -80,6 +80,20 @@ CONFIG = dict(
     theorems=[_T + t for t in [
         "C01_facts_as_modelled",
         "C01_session_needs_credentials",
+        "C01_session_needs_credentials_run",
+        "C01_nothing_before_hello",
+        "C01_nothing_before_hello_seq",
+        "C01_invalid_hello_no_effect",
+        "C01_refused_hello_keeps_sessions",
+        "C01_unconfigured_backend_refused",
+        "C01_authenticated_only_by_hello",
+        "C01_valid_v2_accepted",
+        "C01_valid_internal_accepted",
+        "C01_valid_resume_accepted",
+        "C01_alg_none_and_hmac_refused",
+        "C01_alg_family_matches_key",
+        "C01_dot_segments_needed",
+        "judge_sound",
     ]],
     generated=["Auth"],
     harness=dict(pkg="signaling", test="TestVerifC01", go="go1.26", timeout=900),
